@@ -81,8 +81,13 @@ def header_codes(repo):
         start, end = 0, len(text)
     group = text[start:end]
     out = []
-    for m in re.finditer(r'^[ \t]*#[ \t]*define[ \t]+(CIF_[A-Z0-9_]+)[ \t]+(-?\d+)[ \t]*$', group, re.M):
-        name, val = m.group(1), int(m.group(2))
+    for m in re.finditer(r'^[ \t]*#[ \t]*define[ \t]+(CIF_[A-Z0-9_]+)[ \t]+(-?(?:0[xX][0-9a-fA-F]+|\d+))[uUlL]*[ \t]*$', group, re.M):
+        name, lit = m.group(1), m.group(2)
+        # the value the C compiler gives the literal: a leading 0 makes it octal, 0x hexadecimal
+        digits = lit.lstrip('-')
+        val = int(digits, 16) if digits[:2].lower() == '0x' else (int(digits, 8) if len(digits) > 1 and digits[0] == '0' and digits.isdigit() and all(c < '8' for c in digits) else int(digits))
+        if lit.startswith('-'):
+            val = -val
         # commented-out definitions do not count
         pre = group[:m.start()]
         if pre.rfind('/*') > pre.rfind('*/'):
